@@ -786,7 +786,7 @@ func (v *Visitor) addNext(s *df.AnalyzerState,
 	if ret, ok := nextNodeWithTrace.Node.(*df.ReturnValNode); ok {
 		if arg, ok := cur.Prev.Node.(*df.CallNodeArg); ok {
 			_, hasEdgeInfo := v.prevEdgeInfos[arg]
-			if hasEdgeInfo && ret.Index() != edgeInfo.Index {
+			if hasEdgeInfo && edgeInfo.Index >= 0 && ret.Index() != edgeInfo.Index {
 				s.Logger.Tracef("Return node index %d != edgeInfo index %d\n", ret.Index(), edgeInfo.Index)
 				return stack, false
 			}
